@@ -841,7 +841,8 @@ class MarkdownNormalizer(Renderer):
                 # A literal backslash right before the break is escaped, or it would be
                 # read together with the backslash of the break as an escaped backslash.
                 return "\\\\\n"
-            if url_end == len(text) and text.endswith(url):
+            # (also with closing punctuation between the URL and the break: `http://x.y)`)
+            if 0 < url_end <= len(text) and text[:url_end].endswith(url) and not re.search(r"\s", text[url_end:]):
                 # Directly after a bare URL the backslash would become part of the link.
                 return " \\\n"
         else:
